@@ -31,7 +31,7 @@ ASSUMPTIONS = E1_ASSUMPTIONS + [
     "does not choose); both are accepted",
     "the @module clauses are a pure function of the file text; they are checked because the pages exist, simulation adds "
     "nothing to them"]
-PROBES = ["other_input_first", "single_file_input", "dir_input", "spelled_dot", "spelled_dotdot", "spelled_abs", "spelled_trailing_slash",
+PROBES = ["module_named_like_generated", "subdir_named_like_prefix", "other_input_first", "single_file_input", "dir_input", "spelled_dot", "spelled_dotdot", "spelled_abs", "spelled_trailing_slash",
           "prefix_default", "prefix_cli", "prefix_sfile", "prefix_user", "sep_not_dot", "ext_in_titles", "ext_in_modules",
           "custom_headers", "module_named", "module_unnamed", "module_body", "depth_ge_2", "moved_tree"]
 
@@ -54,7 +54,7 @@ def strategy(cfg):
     @st.composite
     def world(draw):
         proj_name = draw(st.sampled_from(gen.PROJ_NAMES[:4]))
-        tree = gen.draw_tree(draw, **tree_kw)
+        tree = gen.draw_tree(draw, extra_dirnames=["pfx", proj_name, "p"], **tree_kw)
         gen.fix_for_auto_exclude(tree)
         cm = sorted(f for f in refs.tree_files(tree) if refs.is_cmake(f))
         single = None
@@ -73,6 +73,18 @@ def strategy(cfg):
                 rst["file_extensions_in_titles"] = draw(st.booleans())
             if draw(st.booleans()):
                 rst["file_extensions_in_modules"] = draw(st.booleans())
+        if not single and draw(st.integers(0, 3)) == 0:
+            # '@module NAME' where NAME is spelled exactly like the module name CMinx would generate anyway
+            eff = prefix if prefix is not None else proj_name
+            sep_ = rst.get("module_path_separator", ".")
+            for rel in sorted(tree):
+                c = tree[rel]
+                if c and c.startswith("#[[[ @module zq"):
+                    gen_name = eff + sep_ + (rel if rst.get("file_extensions_in_modules") else rel[:-len(".cmake")]
+                                             if rel.endswith(".cmake") else rel)
+                    if " " not in gen_name and "(" not in gen_name:
+                        head, _, rest = c.partition("\n")
+                        tree[rel] = "#[[[ @module " + gen_name + "\n" + rest
         locs = draw(st.lists(st.sampled_from(LOCS), min_size=1, max_size=2, unique=True))
         files = gen.base_files(None)
         files["cfg"] = None
@@ -308,9 +320,14 @@ def _probes(ctx, spec, tree):
         ctx.probes["ext_in_modules"] += 1
     if rst.get("headers"):
         ctx.probes["custom_headers"] += 1
+    eff = spec["prefix"] if spec["prefix"] is not None else spec["proj_name"]
+    if any(rel.split("/")[0] == eff and tree[rel] is None for rel in tree):
+        ctx.probes["subdir_named_like_prefix"] += 1
     for rel, c in tree.items():
         if c and c.startswith("#[[[ @module"):
             info = module_info(c)
+            if info["name"] and not info["name"].startswith("zq"):
+                ctx.probes["module_named_like_generated"] += 1
             ctx.probes["module_named" if info["name"] else "module_unnamed"] += 1
             if info["body"]:
                 ctx.probes["module_body"] += 1
